@@ -247,7 +247,8 @@ impl<'w> Gen<'w> {
         let next_id = 1 + rng.below(1000) * 100;
         let mut g = Gen { h, rng, w, stats: Stats::default(), next_id, pending: VecDeque::new(), saved: vec![], thorough };
         g.stats.histories = 1;
-        g.emit(&format!("NOTE HIST {} seed={}", name, seed));
+        let cfg = cfg_token(g.h.sim.config());
+        g.emit(&format!("NOTE HIST {} seed={} {}", name, seed, cfg));
         // legend for human readers of replay files: number -> name
         let legend = format!(
             "NOTE NAMES addresses: {} | denoms: {} | token ids: {}",
@@ -1541,6 +1542,38 @@ impl<'w> Gen<'w> {
         self.emit("ENDDRAIN");
         self.pop();
     }
+}
+
+// ---------------------------------------------------------------------------------------
+// world configuration as one token (so that a history can be re-run from its text alone)
+// ---------------------------------------------------------------------------------------
+
+/// `cfg=U<users>;F<filler denoms>;T<cw20>;C<cw721>;N<nfts per user per collection>;H<hostile>;A<admin,admin,…>`
+/// (admin `-` = no admin, missing entries = the deployer); everything else is `Config::default()`.
+pub fn cfg_token(c: &Config) -> String {
+    let admins: Vec<String> = c.collection_admins.iter().map(|a| a.clone().unwrap_or_else(|| "-".to_string())).collect();
+    format!("cfg=U{};F{};T{};C{};N{};H{};A{}", c.n_users, c.n_filler_denoms, c.n_cw20, c.n_cw721, c.nfts_per_user_per_collection, c.n_hostile, admins.join(","))
+}
+
+pub fn cfg_from_token(tok: &str) -> Option<Config> {
+    let body = tok.strip_prefix("cfg=")?;
+    let mut c = Config::default();
+    for part in body.split(';') {
+        let (k, v) = part.split_at(1);
+        match k {
+            "U" => c.n_users = v.parse().ok()?,
+            "F" => c.n_filler_denoms = v.parse().ok()?,
+            "T" => c.n_cw20 = v.parse().ok()?,
+            "C" => c.n_cw721 = v.parse().ok()?,
+            "N" => c.nfts_per_user_per_collection = v.parse().ok()?,
+            "H" => c.n_hostile = v.parse().ok()?,
+            "A" => {
+                c.collection_admins = if v.is_empty() { vec![] } else { v.split(',').map(|a| if a == "-" { None } else { Some(a.to_string()) }).collect() }
+            }
+            _ => return None,
+        }
+    }
+    Some(c)
 }
 
 // ---------------------------------------------------------------------------------------
